@@ -199,6 +199,12 @@ class Check:
                 self.discharged.append(t)
         if not thms:
             self.broken.append({'kind': 'proof-obligation', 'what': f'no theorems found in Props/{self.prop}.lean'})
+        if self.tier == 'thorough':
+            # independent re-check of the compiled declarations of this property's module (and what it imports from this library)
+            r = subprocess.run(['lake', 'env', 'leanchecker', f'MpireModel.Props.{self.prop}'], cwd=LEAN, stdout=subprocess.PIPE, stderr=subprocess.STDOUT, text=True)
+            self.notes['leanchecker'] = {'module': f'MpireModel.Props.{self.prop}', 'exit': r.returncode, 'output_tail': r.stdout[-300:]}
+            if r.returncode != 0:
+                self.broken.append({'kind': 'proof-obligation', 'what': 'leanchecker rejected the compiled module', 'detail': r.stdout[-1500:]})
 
     # ---- correspondence bookkeeping ---------------------------------------------------------
     def suite(self, name):
